@@ -161,6 +161,17 @@ class OptimizerModule:
                         f"Both old state {old_state} and new_state {new_state} must be dicts! Continuing..."
                     )
                     return old_state
+                # Entries that hold no tensor may be absent from the state to load (non-tensor attributes are not stored,
+                # and flatten() drops sub-dictionaries without any tensor), but a missing tensor must not be skipped silently.
+                missing_keys = [
+                    key
+                    for key, old_value in old_state.items()
+                    if key not in new_state and not holds_no_tensor(old_value)
+                ]
+                if missing_keys:
+                    raise KeyError(
+                        f"Keys {missing_keys} hold tensors but are not found in the state dict to load."
+                    )
                 old_state |= {
                     key: load_from_new_state_to_old_state(
                         old_state=old_value,
